@@ -95,8 +95,13 @@ let coll t =
   let nl = List.map nat_of_int in
   let nroot = nat_of_int root and nlen = nat_of_int len in
   let f () = fun_of fn ty in
-  let redfn o = match o with "sum1" | "sumN" -> fun_of "plus" ty | "prod1" | "prodN" -> fun_of "mult" ty
-                           | "min1" | "minN" -> fun_of "min" ty | "max1" | "maxN" -> fun_of "max" ty | _ -> f () in
+  (* sum/prod/min/max on an intrinsic element type: the MPI op the SOURCE's ComposeMPIOp table selects (c07_intrinsic_reduce) *)
+  let intrinsic = List.mem ty ["int"; "long"; "uchar"; "char"; "short"; "ulong"; "float"; "double"; "ldouble"] in
+  let builtin i : elem -> elem -> elem = fun a b ->
+    List.map2 (fun x y -> string_of_int (int_of_z (c07_intrinsic_reduce (nat_of_int i) (z_of_int (int_of_string x)) (z_of_int (int_of_string y))))) a b in
+  let named fn i = if intrinsic then builtin i else fun_of fn ty in
+  let redfn o = match o with "sum1" | "sumN" -> named "plus" 0 | "prod1" | "prodN" -> named "mult" 1
+                           | "min1" | "minN" -> named "min" 2 | "max1" | "maxN" -> named "max" 3 | _ -> f () in
   let route rt = Some (c07_spec_apply merge rt ins outs) in
   let spec_red fn' l inouts_in = Some (c07_spec_allreduce merge fn' (nat_of_int l) inouts_in outs) in
   let model, spec =
@@ -204,8 +209,21 @@ let layout t =
   let rec coalesce = function (a, s) :: (b, s2) :: r when a + s = b -> coalesce ((a, s + s2) :: r) | x :: r -> x :: coalesce r | [] -> [] in
   let sh l = String.concat "," (List.map (fun (a, b) -> Printf.sprintf "%d:%d" a b) (coalesce (List.sort compare l))) in
   let tlb = List.fold_left (fun m (a, _) -> min m a) max_int ents and tub = List.fold_left (fun m (a, b) -> max m (a + b)) 0 ents in
-  Printf.sprintf "size=%d extent=%d sizeof=%d lb=0 tlb=%d tub=%d" (int_of_nat (c07_tm_size tm)) (int_of_nat tm.c07_tm_extent) lay.sz tlb tub,
-  Printf.sprintf "wf=%b entries=%s comm=%s" (c07_tm_wfb tm (nat_of_int lay.sz)) (sh ents) (sh lay.comm)
+  (* MPIData view of one object: FieldVector (data()/size(), no resize) is n x K, everything else registered here one object *)
+  let isfv = String.length ty > 3 && String.sub ty 0 3 = "fv_" in
+  let mdv = if isfv then (match tm.c07_tm_entries with (_, s) :: _ -> c07_md_range (nat_of_int (List.length tm.c07_tm_entries)) (c07_dt_basic s s) | [] -> c07_md_object tm)
+            else c07_md_object tm in
+  let sg = List.map int_of_nat (c07_md_signature mdv) in
+  let mdcount = int_of_nat mdv.c07_md_count in
+  let tsz = if mdcount = 0 then 0 else List.fold_left (+) 0 sg / mdcount in
+  (* igather / iallgather of this object into a vector of 2 such objects: the two sides agree; both views are the same layout *)
+  let dout = c07_md_range (S (S O)) tm in
+  let ga = c07_igather_args O O mdv dout and aa = c07_iallgather_args mdv dout in
+  let agree = c07_xa_recv_sig ga = c07_xa_send_sig ga && c07_xa_recv_sig aa = c07_xa_send_sig aa in
+  Printf.sprintf "size=%d extent=%d sizeof=%d lb=0 tlb=%d tub=%d md=%dx%d%s" (int_of_nat (c07_tm_size tm)) (int_of_nat tm.c07_tm_extent) lay.sz tlb tub
+    mdcount tsz (if c07_pack_writes_prefix (if isfv then C07_KRange false else C07_KObject) then "d" else "s"),
+  Printf.sprintf "wf=%b entries=%s comm=%s tbl=%b views=%b agree=%b" (c07_tm_wfb tm (nat_of_int lay.sz)) (sh ents) (sh lay.comm) c07_traits_table_ok
+    (c07_md_same_layout mdv (c07_md_object tm)) agree
 
 (* ---- MPIPack script ---- *)
 let pack t =
@@ -263,6 +281,10 @@ let pks t =
           (* send: the whole buffer travels; rrecv(MPIPack(comm)) resizes to the message: cursor 0 *)
           hop := true; cur := r1; pk := c07_pk_seek !pk O;
           Buffer.add_string !cur ("/X" ^ hexof !pk.c07_pk_buf ^ "," ^ st !pk); Buffer.add_string sp "/-"
+      | ["z"; n] -> pk := c07_pkn_resize !pk (nat_of_int (int_of_string n));
+          Buffer.add_string !cur ("/Z" ^ hexof !pk.c07_pk_buf ^ "," ^ st !pk); Buffer.add_string sp "/-"
+      | ["g"; n] -> pk := c07_pkn_enlarge !pk (nat_of_int (int_of_string n));
+          Buffer.add_string !cur ("/Z" ^ hexof !pk.c07_pk_buf ^ "," ^ st !pk); Buffer.add_string sp "/-"
       | ["k"; pos] ->
           pk := c07_pk_seek !pk (if pos = "end" then c07_pk_size !pk else nat_of_int (int_of_string pos));
           Buffer.add_string !cur ("/K" ^ st !pk); Buffer.add_string sp "/-"
